@@ -25,4 +25,13 @@ CLAIMED = {
         "technique": "Lean 4 proof over an executable model + differential correspondence check",
     },
 }
+CLAIMED["C02"] = {
+    "text": "Theorem eval_valid: by structural induction over ALL expression trees of and/or/xor/minus/not/degrade, evaluation on valid "
+            "leaves yields a Valid MOC (canonical, inside the domain, aligned on the declared depth) of legal depth; per-operator "
+            "preservation theorems; unique-normal-form corollary; validB ⇔ Valid so that the executable judge run on every MOC the real "
+            "code produces (operators, constructors, builders, adapters; geometry constructors as a labelled test) IS the property.",
+    "design_ref": "DESIGN.md §4 C02, §10",
+    "note": TB + "; producers not modelled (geometry, BMOC conversion, STC-S) are only tested through validB",
+    "technique": "Lean 4 proof (induction over programs) + differential correspondence + executable judge proved equivalent to the property",
+}
 NOT_YET = {}
